@@ -10,6 +10,7 @@ PER_OP_SECONDS = 8
 THEOREMS = {'decode_stops': 'full: any inner decoder incl. endless ones', 'extend_cap': 'full', 'scan_bounds': 'full', 'read_bounds': 'full', 'skip_bounds': 'full', 'stream_no_fault': 'full', 'next_work_linear': 'full: one next is linear in the bytes present, on every history', 'heap_bounded': 'full: live headers and blocks',
             'avail_nonincreasing': 'full: along ANY history the stream never goes backwards (no byte is pulled twice)',
             'listing_work_linear': 'full: a WHOLE listing of n calls pulls <= the bytes present and makes <= A/32 + (A+11)/12 + 2n + 2 source requests in total',
+            'tool_loops_end_in_fuel': 'full: every loop of the tool models ends (end of archive / exit(-1) / parser fault) within its fuel, for every archive: the fuel hides no non-termination',
             'work_bounded': 'full: EVERY history - bytes pulled + bytes still present <= bytes PHYSICALLY present at the start (no declared size in the bound); requests; heap; output <= declared lengths on legal histories',
             'next_work_present': 'full: one next pulls at most the bytes present', 'decoders_present': 'full: no decoder of the table moves its source past the data that is there',
             'run_bounded': 'full: every history - bytes pulled <= present + declared compressed sizes of the members actually decoded; requests; heap',
